@@ -1,6 +1,7 @@
 """C08 — reference series tracks domain transformations through any history."""
 from tools.harness.core import Property
 from tools.props.weaver_units import WeaverUnit, DOMAIN_OPS, RESHAPE_OPS
+from tools.props.commute_units import CommuteUnit
 
 
 class DomainUnit(WeaverUnit):
@@ -12,7 +13,7 @@ class P(Property):
     gen_targets = ["Funfit", "WeaverFootprint"]
 
     def units(self, tier):
-        return [DomainUnit(("C08",), ops=DOMAIN_OPS + DOMAIN_OPS + RESHAPE_OPS, max_len=8, exhaustive_domain=True, queries=False)]
+        return [DomainUnit(("C08",), ops=DOMAIN_OPS + DOMAIN_OPS + RESHAPE_OPS, max_len=8, exhaustive_domain=True, queries=False), CommuteUnit()]
 
 
 PROPERTY = P()
